@@ -265,43 +265,89 @@ func valTerm(v Val) *Term {
 	return t
 }
 
-// simplifyUnder resolves if-then-else nodes whose condition is decided by the
-// assumptions (e.g. channels >= 1 removes the zero-channel guards).
+// shapeAssume: channels >= 1 and the slice invariants 0 <= len <= cap of the given buffers.
+func shapeAssume(bs ...buf) *Facts {
+	f := channelsPositive(bs...)
+	for _, b := range bs {
+		f.add(Cond{Kind: CGE0, P: normInt(b.lenT())})
+		f.add(Cond{Kind: CGE0, P: normInt(b.capT()).Sub(normInt(b.lenT()))})
+	}
+	return f
+}
+
+// simplifyUnder rewrites a term using facts that hold where it is evaluated:
+// if-then-else nodes whose condition is decided are resolved (the zero-channel
+// guards disappear under channels >= 1); a guard that only special-cases a
+// value the general branch already yields is dropped (ite(n <= 0, 0, X) with
+// X = 0 at n = 0); and the integer idiom 1 + (n-1)/b is read as ceildiv(n, b)
+// where n >= 1 and b >= 1 are known.
 func simplifyUnder(t *Term, assume *Facts) *Term {
 	if t == nil || assume == nil {
 		return t
 	}
 	t = canon(t)
-	var rw func(*Term) *Term
-	rw = func(x *Term) *Term {
-		if len(x.Args) == 0 {
+	var rw func(*Term, *Facts, int) *Term
+	rw = func(x *Term, f *Facts, depth int) *Term {
+		if len(x.Args) == 0 || depth > 24 {
 			return x
+		}
+		if x.Op == OpIte {
+			c := condOf(x.Args[0], false)
+			switch f.eval(c) {
+			case Yes:
+				return rw(x.Args[1], f, depth+1)
+			case No:
+				return rw(x.Args[2], f, depth+1)
+			}
+			f1, f2 := f.clone(), f.clone()
+			f1.add(c)
+			f2.add(c.Not())
+			a, b := rw(x.Args[1], f1, depth+1), rw(x.Args[2], f2, depth+1)
+			if z, ok := normIntConst(a); ok && z == 0 && isZeroUnder(f1, b, 0) {
+				return b
+			}
+			if z, ok := normIntConst(b); ok && z == 0 && isZeroUnder(f2, a, 0) {
+				return a
+			}
+			if a.Key() == b.Key() {
+				return a
+			}
+			return &Term{Op: OpIte, Typ: a.Typ, Args: []*Term{c.Term(), a, b}}
 		}
 		args := make([]*Term, len(x.Args))
 		ch := false
 		for i, a := range x.Args {
-			args[i] = rw(a)
+			args[i] = rw(a, f, depth+1)
 			if args[i] != a {
 				ch = true
 			}
 		}
-		if x.Op == OpIte {
-			switch assume.eval(condOf(args[0], false)) {
-			case Yes:
-				return args[1]
-			case No:
-				return args[2]
+		y := x
+		if ch {
+			c := *x
+			c.Args = args
+			c.key = ""
+			y = &c
+		}
+		// 1 + (n-1)/b  ==>  ceildiv(n, b)   for n >= 1, b >= 1
+		if isIntLike(y.Typ) && (y.Op == OpAdd || y.Op == OpSub) {
+			p := normInt(y)
+			if len(p.m) == 2 && hasConst(p, 1) {
+				for k, mo := range p.m {
+					if k == "" || len(mo.factors) != 1 || mo.coef.Cmp(bigOne) != 0 || mo.factors[0].Op != OpDiv {
+						continue
+					}
+					d := mo.factors[0]
+					n, b := normInt(d.Args[0]), normInt(d.Args[1])
+					if f.impliesGE0(n) && f.impliesGE0(b.AddInt(-1)) {
+						return &Term{Op: OpCeilDiv, Typ: intT, Args: []*Term{n.AddInt(1).toTerm(), b.toTerm()}}
+					}
+				}
 			}
 		}
-		if !ch {
-			return x
-		}
-		c := *x
-		c.Args = args
-		c.key = ""
-		return &c
+		return y
 	}
-	return canon(rw(t))
+	return canon(rw(t, assume, 0))
 }
 
 func eqUnder(a, b *Term, assume *Facts) bool {
